@@ -16,7 +16,7 @@ def _conc(*xs):
 
 
 def str_method(models, ex, obj, name, args, kwargs, st, node):
-    if _conc(obj, args, kwargs) and not any(hasattr(a, "__pyvc_eq__") or hasattr(a, "__pyvc_symbolic_iter__") for a in args):
+    if _conc(obj, args, kwargs) and not any(type(a).__name__ == "GenCall" for a in args) and not any(hasattr(a, "__pyvc_eq__") or hasattr(a, "__pyvc_symbolic_iter__") for a in args):
         try:
             r = getattr(obj, name)(*args, **kwargs)
         except Exception as e:
@@ -74,6 +74,9 @@ def str_method(models, ex, obj, name, args, kwargs, st, node):
         return [Val(SOpaque("Lines", parts), st)]
     if name == "splitlines" and not args:
         return [Val(SSeq(SPLITLINES(s), "str"), st)]
+    if name in ("rstrip", "lstrip") and len(args) == 1 and isinstance(args[0], str):
+        fn = z3.Function("py_" + name, z3.StringSort(), z3.StringSort(), z3.StringSort())
+        return [Val(SStr(fn(s, z3.StringVal(args[0]))), st)]
     if name == "isdigit":
         digits = z3.Plus(z3.Range("0", "9"))
         return [Val(SBool(z3.InRe(s, digits)), st)]
@@ -83,7 +86,22 @@ def str_method(models, ex, obj, name, args, kwargs, st, node):
         return [Val(SInt(z3.IndexOf(s, sub, start)), st)]
     if name == "count" and isinstance(args[0], str) and len(args[0]) == 1:
         ex.unsupported(node, "str.count symbolic")
-    if name == "join" and hasattr(args[0], "__pyvc_symbolic_iter__") and not isinstance(args[0], SSeq):
+    from .symexec import GenCall, Outcome
+
+    if name == "join" and args and isinstance(args[0], GenCall):
+        # the generator runs to completion; the joined text itself is not tracked (it is only printed)
+        g = args[0]
+        outs = ex.run_generator(g.fr, g.args, g.kwargs, st, lambda v, cur: [Outcome("fall", None, cur)], g.bound_self)
+        res = []
+        for o in outs:
+            if o.kind == "fall":
+                res.append(Val(V.sstr(fresh_name("joined")), o.st))
+            elif o.kind == "raise":
+                res.append(Exc(o.value, o.st))
+            else:
+                raise Unsupported("join over generator: unexpected outcome")
+        return res
+    if name == "join" and (hasattr(args[0], "__pyvc_symbolic_iter__") or isinstance(args[0], SSeq)):
         return [Val(V.sstr(fresh_name("joined")), st)]  # text of a symbolic list: not tracked (only feeds messages)
     if name == "join":
         items = models.iter_concrete(ex, args[0], node)
